@@ -311,6 +311,8 @@ def run(ctx):
     for j, cfg in enumerate(cfgs):
         ctx.mc("StaticContext", cfg, coverage=(j == 0), must_cover=ACTIONS if j == 0 else ())
     if ctx.thorough:
+        # formatting values at 6 tokens (design level only) and random walks to 8 tokens
+        ctx.mc("StaticContext", "StaticContext_thorough_d.cfg")
         ctx.mc("StaticContext", "StaticContext_sim.cfg", simulate=5000, depth=24)
     demo_defect_models(ctx)
     # ---- spec -> code
@@ -325,7 +327,7 @@ def run(ctx):
             ntrees += replay(ctx, recs, stats)
             ctx.sample({"spec_behaviour": _brief(recs[len(recs) * 2 // 3])})
         # ---- code -> spec
-        accepted = c2s(ctx, 4000 if ctx.thorough else 300, 14 if ctx.thorough else 10, stats)
+        accepted = c2s(ctx, 6000 if ctx.thorough else 300, 14 if ctx.thorough else 10, stats)
     finally:
         os.chdir(cwd)
     if accepted:
